@@ -82,11 +82,23 @@ def c09(ctx, spec):
         ctx.run_sharded('c09_d%d' % d, n, args=th, shards=min(8, n))
     ctx.extra['scenarios'] = total; ctx.extra['injection_points_executed'] = ctx.counters.get('injection_points', 0)
 
+# ---------------------------------------------------------------------------------------------- C19
+def c19(ctx, spec):
+    ctx.build([dict(name='c19_d%d' % d, src='harness/c19_rebase.cpp', cfg='asan', defs=['C19_D=%d' % d]) for d in (1, 2, 3, 4)])
+    n = T(ctx, 4000, 150000)
+    for d in (1, 2, 3, 4):
+        ctx.run_sharded('c19_d%d' % d, n, args=['--maxext', 4, '--maxops', 4], shards=4)
+
 HIST_RULE = ('histories (3..12 steps quick, ..40 thorough) over a pool of 4 owning arrays of one (element type, rank, allocator traits): 26 operation kinds (sizing/fill/allocator-extended/copy/move/view/init-list/iterator constructors, copy/move/self assignment over '
              'every prior state, assignment from views/other element type/init lists/ranges, swap, decay, 3 reextent overloads, clear, ={}, reshape, assign(first,last), element writes, destroy); unique ids as values; extents 0..3. '
              'After EVERY step: each live array vs. its model value, storage ranges pairwise disjoint, live-object registry == sum of num_elements, outstanding blocks == non-empty arrays with matching sizes, block owner == get_allocator(), get_allocator() == what the traits prescribe. ')
 
 REGISTRY = {
+    'C19': dict(fn=c19, level='exploration',
+                rule='the view programs of C01 (plus reindexed / blocked / stenciled) run on arrays constructed from explicit index extensions with bases -3..3 per dimension (root D 1..4); index-taking operations receive reported_first + relative index; '
+                     'after EVERY operation the zero-based table model (the twin) is compared: sizes, extension sizes, and for the k-th valid index tuple of the extension the view itself reports: brackets, call, apply, k-th elements() position, elements()[k], begin()+n; '
+                     'at the end copy construction, ==/!=, assignment into identical extensions; reextent of the re-based root to other explicit extensions keeps elements by index tuple. distinct = hash(root D, base signs, op sequence); non-trivial = >=1 effective op and >=1 element compared',
+                assumptions=['results of re-basing are addressed through the extension each view reports (the index base of derived views is not documented per operation)']),
     'C09': dict(fn=c09, level='fault_enumeration', exhaustive=True,
                 rule='scenario = operation (29 kinds: every constructor form, copy/move ctor, copy/move assignment, assignment from view / other element type / init list / iterator pair, 3 reextents, clear, swap, decay, view assignment/fill/swap, static_array copy/move) x prior state of the target {empty, same extents, other extents} x shape (1-D 3; 2-D 2x2; 3-D 2x1x2; thorough adds 1, 5, 2x3, 3x1, 2x2x2), tracked<int> elements and a ledger allocator. '
                      'A dry run counts the injection points of 7 kinds (allocation, element copy/move construction, copy/move assignment, value/default construction); then EVERY point k is made to throw in its own forked child, which checks: exception reaches the caller (no terminate), '
